@@ -456,6 +456,11 @@ fn main() {
         tier.pick(60, 200),
         tier.pick(10, 12)
     );
+    // merge the evidence of the serde half (checks/c02.sh runs it first)
+    match std::fs::read_to_string(mc::report::verif_root().join("evidence").join("C02.serde.json")).ok().and_then(|t| serde_json::from_str::<Value>(&t).ok()) {
+        Some(v) => rep.note("deserialized_stats", v),
+        None => rep.note("deserialized_stats", json!("not run in this invocation (./run.sh C02 runs it; see checks/c02.sh)")),
+    }
     rep.assume("z* is the oracle's own normal quantile (libm erfc + Newton), self-tested against mpmath tables");
     rep.assume("n beyond the bound is not enumerated: the formula has no n-dependent branch and usize->f64 is exact below 2^53");
     rep.require(s.distinct() >= 12, "fewer than 12 distinct outcome classes: vacuous");
